@@ -2,6 +2,7 @@ package props
 
 import (
 	"fmt"
+	"go/types"
 
 	"bifrostverify/an"
 
@@ -151,6 +152,57 @@ func c36(c *an.Check) {
 			}
 			return "too few accesses found (anchor drift)"
 		}())
+	// hand-over of the send queue: the critical section that takes the pending batch out of the shared queue must leave
+	// the queue with storage of its own (nil / a fresh slice); re-slicing the same array lets later callbacks overwrite
+	// messages that are still being sent outside the lock.
+	nHand, badHand := 0, ""
+	for _, g := range an.WithClosures(lk)[1:] {
+		for _, b := range g.Blocks {
+			for _, ins := range b.Instrs {
+				st, ok := ins.(*ssa.Store)
+				if !ok {
+					continue
+				}
+				src, isLoad := st.Val.(*ssa.UnOp)
+				if !isLoad {
+					continue
+				}
+				from, to := cellOfAddr(p, src.X), cellOfAddr(p, st.Addr)
+				if from == nil || to == nil || from == to || !guarded[from] || guarded[to] {
+					continue
+				}
+				if _, isSlice := from.Type().Underlying().(*types.Pointer).Elem().Underlying().(*types.Slice); !isSlice {
+					continue
+				}
+				// g hands the queue 'from' over to the snapshot 'to'
+				nHand++
+				reset := false
+				for _, b2 := range g.Blocks {
+					for _, ins2 := range b2.Instrs {
+						st2, ok := ins2.(*ssa.Store)
+						if !ok || cellOfAddr(p, st2.Addr) != from {
+							continue
+						}
+						_, fresh := st2.Val.(*ssa.MakeSlice)
+						if isNilConst(st2.Val) || fresh {
+							reset = true
+							continue
+						}
+						badHand = fmt.Sprintf("after handing the pending batch to the sender, %s keeps the shared queue on the same backing array (store at %s is neither nil nor a fresh slice): callbacks overwrite messages that are still being sent", an.FuncName(g), p.Pos(st2.Pos()))
+					}
+				}
+				if !reset && badHand == "" {
+					badHand = fmt.Sprintf("%s hands the pending batch to the sender without resetting the shared queue: every batch is sent again", an.FuncName(g))
+				}
+			}
+		}
+	}
+	c.Require(badHand == "" && nHand == 1, "OWNERSHIP", "rpc/access LookupRpcService hands the pending batch over without sharing its storage", lk, "", nHand, "snapshot taken and the shared queue reset to nil in one critical section", func() string {
+		if badHand != "" {
+			return badHand
+		}
+		return fmt.Sprintf("%d hand-over sites found (anchor drift)", nHand)
+	}())
 	// the three announcement gates
 	fieldStoreTrue := func(ins ssa.Instruction, name string) (ssa.Value, bool) {
 		st, ok := ins.(*ssa.Store)
